@@ -2262,13 +2262,15 @@ def GInv2 (P : SliceCtor → Prop) (st : GState) : Prop :=
 
 /-- side conditions of a run: application calls are application calls (`appOp`) and name existing channels
     (`SrvValid`) -/
+def opValid (st : GState) : GlueOp → Prop
+  | .app sop => appOp sop = true ∧ CI.SrvValid st.1.renet sop
+  | .update _ _ => True
+  | .sendPackets => True
+  | .disconnectAll => True
+
 def GPre (a : AEAD) (st : GState) : List GlueOp → Prop
   | [] => True
-  | op :: rest =>
-    (match op with
-     | .app sop => appOp sop = true ∧ CI.SrvValid st.1.renet sop
-     | _ => True) ∧
-    ∀ st', op.apply a st = .ok st' → GPre a st' rest
+  | op :: rest => opValid st op ∧ ∀ st', op.apply a st = .ok st' → GPre a st' rest
 
 theorem sendLoop_inv_live {P : SliceCtor → Prop} (a : AEAD) :
     ∀ (l : List Nat) (g g' : ServerGlue) (out out' : Array Dgram), serverSendLoop a g l out = .ok (g', out') →
@@ -2292,11 +2294,7 @@ theorem sendLoop_inv_live {P : SliceCtor → Prop} (a : AEAD) :
       exact sendLoop_inv_live a rest _ g' out1 out' h3 hi1 hl1
 
 theorem GlueOp.apply_inv2 {P : SliceCtor → Prop} (hP : GoodP P) {a : AEAD} {st st' : GState} {op : GlueOp}
-    (h : op.apply a st = .ok st')
-    (hv : match op with
-      | .app sop => appOp sop = true ∧ CI.SrvValid st.1.renet sop
-      | _ => True)
-    (hi : GInv2 P st) : GInv2 P st' := by
+    (h : op.apply a st = .ok st') (hv : opValid st op) (hi : GInv2 P st) : GInv2 P st' := by
   obtain ⟨hg, hin, hl⟩ := hi
   have hallowed : op.allowed = true := by
     cases op with
@@ -2344,6 +2342,6 @@ theorem runGlue_inv2 {P : SliceCtor → Prop} (hP : GoodP P) (a : AEAD) :
 
 theorem gInv2_fresh {P : SliceCtor → Prop} {ns : NetcodeServer} (h : ns.clientsId = []) (budget : Nat)
     (sc cc : List ChanCfg) : GInv2 P ({ netcode := ns, renet := Server.new budget sc cc }, []) :=
-  ⟨gInv_fresh h budget sc cc, CI.server_new_invP budget sc cc, fun _ _ hf => by simp [Server.new, SMap.find?] at hf⟩
+  ⟨gInv_fresh h budget sc cc, CI.server_new_invP budget sc cc, fun _ _ hf => by simp [Server.new] at hf⟩
 
 end RenetVerif.GI
